@@ -67,6 +67,7 @@ struct Fnv {
 inline sigjmp_buf g_jmp;
 inline volatile sig_atomic_t g_jmp_armed = 0;
 inline volatile uintptr_t g_fault_addr = 0;
+inline std::string g_last_abort_msg; // what() of the last captured abort
 
 inline void fault_handler(int sig, siginfo_t* si, void*)
 {
@@ -96,7 +97,7 @@ inline std::string guarded(F&& f)
   g_jmp_armed = 1;
   std::string r;
   try { r = f(); }
-  catch (const std::runtime_error&) { r = "abort"; }
+  catch (const std::runtime_error& e) { r = "abort"; g_last_abort_msg = e.what(); }
   catch (const std::bad_alloc&) { r = "badalloc"; }
   g_jmp_armed = 0;
   return r;
